@@ -214,6 +214,17 @@ def run_case(case):
                         special=common.float_word_class(int(exp[r, c])) if iinfo["type_code"] == "C*8" else "",
                     )
                 )
+            # what the caller does with a returned array is the caller's business: overwrite it
+            # in place, then look at the image again
+            try:
+                values[...] = 0
+            except (ValueError, TypeError):
+                pass  # a read-only result cannot be damaged
+            again, err = harness.guard(lambda v=var: np.asarray(v.values))
+            if err is not None:
+                out.append(harness.disc("exception", where + ".values (second look)", "values", harness.exc_text(err)))
+            elif again.shape != shape or not np.array_equal(exp, observed_words(again, iinfo["type_code"])):
+                out.append(harness.disc("pixel-bits", where + " (second look, after the first result was overwritten in place)", "the samples of the file", "other samples"))
     return out
 
 LEVEL_TEXT = (
